@@ -47,7 +47,13 @@ use crate::resolution::ResolvedGroup;
 use crate::resolution::SectionSlot;
 use crate::timing_phase;
 use crate::verbose_timing_phase;
+#[cfg(feature = "verif")]
+use crate::verif::sync::ArrayQueue;
+#[cfg(not(feature = "verif"))]
 use crossbeam_queue::ArrayQueue;
+#[cfg(feature = "verif")]
+use crate::verif::sync::AtomicCell;
+#[cfg(not(feature = "verif"))]
 use crossbeam_utils::atomic::AtomicCell;
 use hashbrown::HashMap;
 use itertools::Itertools as _;
@@ -58,7 +64,13 @@ use std::cell::RefCell;
 use std::mem::replace;
 use std::mem::take;
 use std::ops::Range;
+#[cfg(feature = "verif")]
+use crate::verif::sync::Mutex;
+#[cfg(not(feature = "verif"))]
 use std::sync::Mutex;
+#[cfg(feature = "verif")]
+use crate::verif::sync::AtomicUsize;
+#[cfg(not(feature = "verif"))]
 use std::sync::atomic::AtomicUsize;
 use std::sync::atomic::Ordering;
 use thread_local::ThreadLocal;
@@ -73,7 +85,10 @@ const TARGET_GROUP_SIZE_BYTES: u64 = 140_000;
 /// Setting this to a higher value increases the potential for parallelism of hash table population
 /// and gives better cache performance. However, it also increases heap allocations. Changing this
 /// value will result in a different ordering of strings within the output file.
+#[cfg(not(feature = "verif-b2"))]
 const MERGE_STRING_BUCKET_BITS: usize = 4;
+#[cfg(feature = "verif-b2")]
+const MERGE_STRING_BUCKET_BITS: usize = 1;
 const MERGE_STRING_BUCKETS: usize = 1 << MERGE_STRING_BUCKET_BITS;
 
 /// Number of input offsets to represent by a single block. A block can store up to 12 offsets. If
@@ -435,13 +450,33 @@ impl<'data> MergedStringsSection<'data> {
         let mut resources =
             create_split_resources(&mut self.string_offsets, input_sections, reuse_pool, args);
 
+        #[cfg(feature = "verif")]
+        let verif_region = crate::verif::sched::region_begin("merge");
+        #[cfg(feature = "verif")]
+        crate::verif::sched::event(
+            "merge_begin",
+            resources.num_input_groups as u64,
+            MERGE_STRING_BUCKETS as u64,
+            reuse_pool.capacity as u64,
+        );
         rayon::in_place_scope(|s| {
             // Spawn some number of tasks to process input section groups. As these tasks complete,
             // they'll spawn bucket processing tasks to take those inputs. As the bucket processing
             // tasks complete, they will, as capacity permits, spawn additional input processing
             // tasks. This continues until the last inputs and the last buckets have been processed.
             try_spawn_input_processing(&resources, s);
+            #[cfg(feature = "verif")]
+            crate::verif::sched::scope_wait();
         });
+        #[cfg(feature = "verif")]
+        drop(verif_region);
+        #[cfg(feature = "verif")]
+        crate::verif::sched::event(
+            "merge_end",
+            resources.unprocessed.len() as u64,
+            resources.finished_buckets.len() as u64,
+            resources.errors.len() as u64,
+        );
 
         // Check if we got any errors. We only look at the first error.
         if let Some(error) = resources.errors.pop() {
@@ -565,10 +600,18 @@ fn try_spawn_input_processing<'scope>(
 ) {
     loop {
         let Ok(mut reservation) = resources.reuse_pool.try_reserve(MERGE_STRING_BUCKETS) else {
+            #[cfg(feature = "verif")]
+            crate::verif::sched::event("reserve_fail", resources.unprocessed.len() as u64, 0, 0);
             return;
         };
+        #[cfg(feature = "verif")]
+        crate::verif::sched::event("reserve_ok", resources.unprocessed.len() as u64, 0, 0);
 
+        #[cfg(feature = "verif")]
+        let verif_ticket = crate::verif::sched::ticket("input");
         scope.spawn(|scope| {
+            #[cfg(feature = "verif")]
+            let _verif_task = crate::verif::sched::task_begin(verif_ticket);
             if let Some(input_section) = resources.unprocessed.pop()
                 && let Err(error) =
                     process_input_section_group(resources, input_section, scope, &mut reservation)
@@ -836,8 +879,19 @@ fn process_input_section_group<'data, 'offsets, 'scope>(
     for (i, bucket_out) in buckets.iter_mut().enumerate() {
         let prev_slot =
             resources.swap_strings_slot(group_in.index, i, StringsSlot::Strings(take(bucket_out)));
+        #[cfg(feature = "verif")]
+        crate::verif::sched::event(
+            "publish",
+            group_in.index as u64,
+            i as u64,
+            u64::from(matches!(prev_slot, StringsSlot::WaitingForStrings(_))),
+        );
         if let StringsSlot::WaitingForStrings(bucket) = prev_slot {
+            #[cfg(feature = "verif")]
+            let verif_ticket = crate::verif::sched::ticket("bucket");
             scope.spawn(|scope| {
+                #[cfg(feature = "verif")]
+                let _verif_task = crate::verif::sched::task_begin(verif_ticket);
                 if let Err(error) = work_with_bucket(resources, bucket, scope) {
                     let _ = resources.errors.push(error);
                 }
@@ -869,9 +923,23 @@ fn work_with_bucket<'data, 'scope>(
 
             let slot = replace(&mut *lock, StringsSlot::Empty);
             let StringsSlot::Strings(strings) = slot else {
+                #[cfg(feature = "verif")]
+                crate::verif::sched::event(
+                    "bucket_park",
+                    bucket.index as u64,
+                    group_index as u64,
+                    0,
+                );
                 *lock = StringsSlot::WaitingForStrings(bucket);
                 return Ok(());
             };
+            #[cfg(feature = "verif")]
+            crate::verif::sched::event(
+                "bucket_take",
+                bucket.index as u64,
+                group_index as u64,
+                strings.len() as u64,
+            );
 
             strings
         };
@@ -889,6 +957,8 @@ fn work_with_bucket<'data, 'scope>(
     }
 
     // This bucket has now processed all input sections, so it's done.
+    #[cfg(feature = "verif")]
+    crate::verif::sched::event("bucket_done", bucket.index as u64, 0, 0);
     let _ = resources.finished_buckets.push(bucket);
     Ok(())
 }
